@@ -60,8 +60,12 @@ const (
 	BinNullChar = '\255'
 	// IntSize is the number of bytes for integers on the wire
 	IntSize = 8 // HTCondor sends 64-bit integers
-	// MaxFrameSize maximum size for a single frame payload
-	MaxFrameSize = 1024 * 1024 // 1MB frames
+	// MaxFrameSize maximum size for a single frame payload. The stream layer
+	// limits a frame to 1MB on the wire, and on an AES-GCM stream the payload
+	// grows by the 16-byte tag plus, on the first frame, the 16-byte IV; leave
+	// room for both so that a full frame is accepted whether or not the stream
+	// is encrypting.
+	MaxFrameSize = 1024*1024 - 32
 	// TargetFrameSize optimal frame size for network efficiency
 	TargetFrameSize = 16 * 1024 // 16KB frames
 )
